@@ -117,6 +117,16 @@ fn render(s: &Script, m: usize, cli: bool) -> String {
             }
         }
     }
+    // two in three scripts: functions that call each other in a cycle (of two or three), used by the
+    // tests of their module; they never change an outcome
+    let cyc = (s.tests.len() + s.fns.len()) % 3;
+    if cyc != 0 && s.tests.iter().any(|t| t.module == m) {
+        if cyc == 1 {
+            let _ = writeln!(fns_text, "fn zz_even{m}(n: i32) -> bool {{ if n == 0 {{ true }} else {{ zz_odd{m}(n - 1) }} }}\nfn zz_odd{m}(n: i32) -> bool {{ if n == 0 {{ false }} else {{ zz_even{m}(n - 1) }} }}");
+        } else {
+            let _ = writeln!(fns_text, "fn zz_odd{m}(n: i32) -> bool {{ if n == 0 {{ false }} else {{ zz_mid{m}(n) }} }}\nfn zz_mid{m}(n: i32) -> bool {{ zz_even{m}(n - 1) }}\nfn zz_even{m}(n: i32) -> bool {{ if n == 0 {{ true }} else {{ zz_odd{m}(n - 1) }} }}");
+        }
+    }
     let mut o = String::new();
     if !s.tests_first {
         o.push_str(&fns_text);
@@ -126,6 +136,13 @@ fn render(s: &Script, m: usize, cli: bool) -> String {
             continue;
         }
         let _ = writeln!(o, "test {} {{", t.name);
+        if cyc != 0 {
+            if t.tag % 2 == 0 {
+                let _ = writeln!(o, "    if !zz_even{m}(4) {{\n        reject\n    }}");
+            } else {
+                let _ = writeln!(o, "    if zz_odd{m}(4) {{\n        reject\n    }}");
+            }
+        }
         if cli {
             // the command-line binary's runtime has `print` but not the harness's effect markers
             let _ = writeln!(o, "    print(\"test-body-{}\");", t.tag);
@@ -464,6 +481,37 @@ impl WorkerState for W {
                 Err(e) => Outcome::fail("io", e.to_string()),
             };
         }
+        if case.first().map(|c| c.as_slice()) == Some(b"#!cli-tests") {
+            // literal: ["#!cli-tests", number of rejecting tests, number of accepting tests]
+            let g = |i: usize| String::from_utf8_lossy(case.get(i).unwrap_or(&empty)).trim().parse::<usize>().unwrap_or(0);
+            let (nr, na) = (g(1), g(2));
+            if !self.cli.exists() {
+                return Outcome::discard("roto CLI binary not built");
+            }
+            let _ = std::fs::remove_dir_all(&self.tmp);
+            let _ = std::fs::create_dir_all(&self.tmp);
+            let mut text = String::new();
+            for i in 0..nr {
+                let _ = writeln!(text, "test r{i} {{\n    reject\n}}");
+            }
+            for i in 0..na {
+                let _ = writeln!(text, "test a{i} {{\n    accept\n}}");
+            }
+            let f = self.tmp.join("many.roto");
+            let _ = std::fs::write(&f, &text);
+            return match Command::new(&self.cli).args(["test", &f.to_string_lossy()]).output() {
+                Ok(out) if out.status.success() == (nr == 0) => {
+                    let mut o = Outcome::pass();
+                    o.nontrivial = true;
+                    o.hash = fnv(format!("cli-tests {nr} {na}").as_bytes());
+                    o.classes.push("cli-many-tests".into());
+                    o.render = Some(format!("roto test on {nr} rejecting and {na} accepting test blocks"));
+                    o
+                }
+                Ok(out) => Outcome::fail("cli-test-status:many", format!("`roto test` on a script with {nr} rejecting and {na} accepting test blocks: exit success = {}\n{}", out.status.success(), String::from_utf8_lossy(&out.stdout).lines().rev().take(3).collect::<Vec<_>>().join("\n"))),
+                Err(e) => Outcome::fail("io", e.to_string()),
+            };
+        }
         let ctl = case.first().unwrap_or(&empty);
         let s = decode(ctl);
         let text = self.render_only(case);
@@ -490,6 +538,14 @@ impl WorkerState for W {
 impl Prop for C19P {
     fn id(&self) -> &'static str {
         "C19"
+    }
+    fn fixed_cases(&self, _tier: Tier) -> Vec<Case> {
+        // how many test blocks reject must not matter for the exit status, also around the sizes of
+        // the integer types an exit status goes through
+        [(0usize, 3usize), (1, 0), (255, 1), (256, 0), (257, 2), (512, 0), (65536 / 128, 1)]
+            .iter()
+            .map(|(r, a)| vec![b"#!cli-tests".to_vec(), r.to_string().into_bytes(), a.to_string().into_bytes()])
+            .collect()
     }
     fn rule(&self) -> String {
         "scripts with 0-8 test blocks over 1-4 modules (the first child module is sometimes itself called `pkg`), names drawn from a pool shared with functions (collisions on purpose), each test logging a unique tag and ending in accept or reject after 0-2 early accept/reject exits under generated conditions (in if-blocks and while loops); library oracle: run_tests() is Ok iff every block's modelled outcome is accept, every tag is logged exactly once, get_tests() lists every test once, each listed test runs exactly its own body with the modelled result, the order of run_tests equals the order of get_tests and is identical across two compilations, a function calling a test does not compile, functions named like tests keep their behaviour; CLI oracle (about 3% of the cases, real `roto` binary built from /repo): check / test / run / run <fn> / run <missing> exit statuses equal the modelled ones and the entry function's print line appears exactly once. Non-trivial: >= 2 tests in >= 2 modules with mixed outcomes, or a name collision, or a CLI case; distinct by script text".into()
